@@ -42,13 +42,16 @@ class Parameter:
     VERSION, MIUX, WKS, LTO, RW, SN, OPT, SDREQ, SDRES, ECPK, RN = range(1, 12)
 
     @staticmethod
-    def decode(data, offset):
+    def decode(data, offset, size=None):
         try:
             T, L = struct.unpack_from('BB', data, offset)
             V = struct.unpack_from('%ds' % L, data, offset+2)[0]
         except struct.error as error:
             msg = " while decoding TLV %r" % hexlify(data[offset:])
             raise DecodeError(str(error) + msg)
+
+        if size is not None and 2 + L > size:
+            raise DecodeError("TLV length exceeds the remaining PDU size")
 
         if T == Parameter.VERSION:
             if L != 1:
@@ -259,7 +262,7 @@ class ParameterExchange(ProtocolDataUnit):
         pax_pdu = ParameterExchange(dsap, ssap)
         offset, size = offset + 2, size - 2
         while size >= 2:
-            T, L, V = Parameter.decode(data, offset)
+            T, L, V = Parameter.decode(data, offset, size)
             if T == Parameter.VERSION:
                 pax_pdu._version = V
             elif T == Parameter.MIUX:
@@ -508,7 +511,7 @@ class Connect(ProtocolDataUnit):
         connect_pdu = Connect(dsap, ssap)
         offset, size = offset + 2, size - 2
         while size >= 2:
-            T, L, V = Parameter.decode(data, offset)
+            T, L, V = Parameter.decode(data, offset, size)
             if T == Parameter.MIUX:
                 connect_pdu.miu = 128 + V
             elif T == Parameter.RW:
@@ -582,7 +585,7 @@ class ConnectionComplete(ProtocolDataUnit):
         cc_pdu = ConnectionComplete(dsap, ssap)
         offset, size = offset + 2, size - 2
         while size >= 2:
-            T, L, V = Parameter.decode(data, offset)
+            T, L, V = Parameter.decode(data, offset, size)
             if T == Parameter.MIUX:
                 cc_pdu.miu = 128 + V
             elif T == Parameter.RW:
@@ -732,7 +735,7 @@ class ServiceNameLookup(ProtocolDataUnit):
         snl_pdu = ServiceNameLookup(dsap, ssap)
         offset, size = offset + 2, size - 2
         while size >= 2:
-            T, L, V = Parameter.decode(data, offset)
+            T, L, V = Parameter.decode(data, offset, size)
             if T == Parameter.SDREQ:
                 snl_pdu.sdreq.append(V)
             elif T == Parameter.SDRES:
@@ -778,7 +781,7 @@ class DataProtectionSetup(ProtocolDataUnit):
         dps_pdu = DataProtectionSetup(dsap, ssap)
         offset, size = offset + 2, size - 2
         while size >= 2:
-            T, L, V = Parameter.decode(data, offset)
+            T, L, V = Parameter.decode(data, offset, size)
             if T == Parameter.ECPK:
                 dps_pdu.ecpk = V
             elif T == Parameter.RN:
